@@ -1,7 +1,7 @@
 (* ===== C16 : linear-constraint specifications compile to the affine map they express ===== *)
 From Coq Require Import List NArith ZArith QArith Qcanon Bool Arith.
 Import ListNotations.
-Require Import GenOps Tok Cons ConsLaws GenTie.
+Require Import GenOps Tok Cons ConsLaws GenTie ConsRows.
 Open Scope Qc_scope.
 
 (* the constraint operator table of the model is the one /repo defines now *)
@@ -35,6 +35,22 @@ Proof. exact variable_divisor_rejected. Qed.
 Theorem C16_unknown_column_rejected : forall vars c, (exists k q, In (Some k, q) c /\ ~ In k vars) -> row_of vars c = inr 6%nat.
 Proof. exact row_unknown_column. Qed.
 
+(* one row per constraint, in the order written: however the commas of 'c1, c2, ..., cn' nest, the value is the tuple of the values of c1 .. cn in
+   that order, and get_matrix turns the tuple into one (row, constant) pair per entry, in order *)
+Theorem C16_comma_list_keeps_order : forall t cs, commas_only t -> Forall2 (fun a c => evals a (VSet c)) (flat t) cs ->
+  exists v, evals (ast_of_ct t) v /\ items v = cs.
+Proof. exact comma_tree_value. Qed.
+Theorem C16_one_row_per_constraint_in_order : forall vars cs rows, rows_of vars cs = inl rows -> Forall2 (fun c x => row_of vars c = inl x) cs rows.
+Proof. exact rows_in_order. Qed.
+Theorem C16_matrix_loop_is_rows_of : forall vars cs acc rows,
+  (fix go (l : list (list sfac)) (acc : list (list Qc * Qc)) : res (list (list Qc * Qc)) :=
+     match l with [] => inl (rev acc) | c :: r => match row_of vars c with inl x => go r (x :: acc) | inr e => inr e end end) cs acc = inl rows ->
+  exists tail, rows_of vars cs = inl tail /\ rows = rev acc ++ tail.
+Proof. exact rows_loop. Qed.
+
+Print Assumptions C16_comma_list_keeps_order.
+Print Assumptions C16_one_row_per_constraint_in_order.
+Print Assumptions C16_matrix_loop_is_rows_of.
 Print Assumptions C16_operator_table_is_the_code's.
 Print Assumptions C16_expression_sound.
 Print Assumptions C16_row_sound.
